@@ -605,6 +605,7 @@ from ..mutants import Mut  # noqa: E402
 
 _F = "urwid/signals.py"
 MUTANTS = [
+    Mut("twin-emit-result-after-lookup", "urwid/signals.py", "Signals.emit", "        result = False\n        handlers = getattr(obj, self._signal_attr, {}).get(name, [])\n", "        handlers = getattr(obj, self._signal_attr, {}).get(name, [])\n        result = False\n", twin=True),
     Mut("disconnect-by-key-rewrites-list", "urwid/signals.py", "Signals.disconnect_by_key", "        for h in list(handlers):\n            if h[0] is key:\n                with contextlib.suppress(ValueError):\n                    handlers.remove(h)\n", "        handlers[:] = [h for h in handlers if h[0] is not key]\n", "ATOMIC|signals.Signals.disconnect_by_key|disconnect_by_key: handler list rewritten from a traversal of itself"),
     Mut("disconnect-by-key-filter-writeback", "urwid/signals.py", "Signals.disconnect_by_key", "        for h in list(handlers):\n            if h[0] is key:\n                with contextlib.suppress(ValueError):\n                    handlers.remove(h)\n", "        handlers[:] = list(filter(lambda h: h[0] is not key, handlers))\n", "ATOMIC|signals.Signals.disconnect_by_key|disconnect_by_key: handler list rewritten from a traversal of itself"),
     Mut("disconnect-by-snapshot-index", "urwid/signals.py", "Signals.disconnect", "        for h in list(handlers):  # comparing may run foreign code (__eq__, weak reference callbacks)\n            if h[1:] == (callback, user_arg, user_args):\n                return self.disconnect_by_key(obj, name, h[0])\n", "        for index, h in enumerate(list(handlers)):\n            if h[1:] == (callback, user_arg, user_args):\n                del handlers[index]\n                return None\n", "PASS|signals.Signals.disconnect|handler removed by snapshot index"),
